@@ -156,6 +156,18 @@ def coq_make(name, files, jobs=16, timeout=3000):
             return rc, out, "coq_makefile"
     cmd = ["timeout", str(timeout), "make", "-f", mk, "-j%d" % jobs, "-k"]
     rc, out, _ = run(cmd, cwd=COQ, timeout=timeout + 30)
+    if rc != 0 and ("inconsistent assumptions" in out or "Error" not in out):
+        # a coqc killed from outside (memory pressure) leaves no Coq error; a library rebuilt underneath a
+        # running build leaves stale .vo files ("inconsistent assumptions"): both are infrastructure outcomes.
+        # make resumes where it stopped; stale dependents are removed first
+        if "inconsistent assumptions" in out:
+            for m in re.finditer(r"Compiled library (\S+) \(in file ([^)]+\.vo)\) makes inconsistent assumptions", out):
+                try:
+                    os.remove(m.group(2))
+                except OSError:
+                    pass
+        rc, out2, _ = run(cmd, cwd=COQ, timeout=timeout + 30)
+        out = out2 if rc == 0 else out + "\n[second make]\n" + out2
     return rc, out, " ".join(cmd)
 
 
@@ -332,6 +344,15 @@ def eval_cases(pid, cases, shard=800, shard_bytes=120000):
     err = None
     for k, sh, p in procs:
         out, _ = p.communicate()
+        if p.returncode != 0 and "Error" not in out:
+            # killed from outside (memory pressure, a stray signal) or timed out without a Coq error:
+            # an infrastructure outcome, not a verdict — evaluate that shard once more, alone
+            rc2, out2, _ = run(["timeout", "1500", "coqc", "-Q", os.path.join(COQ, "theories"), "Sdns", "cases_%d.v" % k], cwd=wd, timeout=1600)
+            if rc2 == 0:
+                out = out2
+                p.returncode = 0
+            else:
+                out = out + "\n[re-run alone: rc=%d]\n" % rc2 + out2
         if p.returncode != 0:
             err = "coqc cases_%d.v failed:\n%s" % (k, out[-2000:])
             continue
